@@ -62,16 +62,21 @@ where
   where
     S: Decode<DA::Decoded> + Clone,
   {
-    match self
-      .keyed_simpledatareader
-      .try_take_one_with(DecodeWrapper::new(decoder))
-    {
-      Err(e) => Err(e),
-      Ok(None) => Ok(None),
-      Ok(Some(kdcc)) => match DeserializedCacheChange::<D>::from_keyed(kdcc) {
-        Some(dcc) => Ok(Some(dcc)),
-        None => Ok(None),
-      },
+    loop {
+      match self
+        .keyed_simpledatareader
+        .try_take_one_with(DecodeWrapper::new(decoder.clone()))
+      {
+        Err(e) => return Err(e),
+        Ok(None) => return Ok(None),
+        Ok(Some(kdcc)) => match DeserializedCacheChange::<D>::from_keyed(kdcc) {
+          Some(dcc) => return Ok(Some(dcc)),
+          // We got a dispose, which does not make sense in a no_key topic. Skip it
+          // and try the next one. Returning Ok(None) here would tell the caller
+          // that there is no more data available, which may not be true.
+          None => continue,
+        },
+      }
     }
   }
 
